@@ -167,3 +167,43 @@ contract(
              "E(result[1]) == deriv(result[0], x)",
              f"E(result[1]) == {W_} / self._rescale_factor['a']"],
 )
+
+# ---- prime prior of RescaleToBounds (the support clause of C07) -------------
+PRI = "nessai/priors.py"
+contract(
+    PRI, "log_uniform_prior", props=["C07"], log_domain=True,
+    params={"x": "Seq(Real)", "xmin": "Real", "xmax": "Real"},
+    returns="Seq(Real)",
+    ensures=["len(result) == len(x)",
+             # log of the indicator of [xmin, xmax]: 0 inside, -inf outside
+             "forall(i, 0, len(x), E(result[i]) == "
+             "(1 if (x[i] >= xmin and x[i] <= xmax) else 0))"],
+)
+PP_ARR = "Struct(a_prime:Real,b_prime:Real,logP:Real,logL:Real)"
+shape("RescalePrimePrior", {
+    "has_prime_prior": "Bool", "name": "Any",
+    "prime_parameters": "PyConst(['a_prime', 'b_prime'])",
+    "prime_prior_bounds": "Dict(a_prime:PyList(Real,2),"
+                          "b_prime:PyList(Real,2))",
+    "_prime_prior": "Fn(nessai/priors.py:log_uniform_prior)",
+}, cls="RescaleToBounds")
+BA, BB = "self.prime_prior_bounds['a_prime']", \
+    "self.prime_prior_bounds['b_prime']"
+contract(
+    RR, "RescaleToBounds.x_prime_log_prior", props=["C07"],
+    self_shape="RescalePrimePrior", log_domain=True,
+    params={"x_prime": PP_ARR},
+    raises={"RuntimeError": "not self.has_prime_prior"},
+    returns="Seq(Real)",
+    ensures=[
+        "len(result) == len(x_prime)",
+        # the prime prior is the product of the per-parameter uniform
+        # priors: its support is exactly the box of prime bounds (two
+        # parameters: the per-parameter loop is unrolled)
+        f"forall(i, 0, len(x_prime), E(result[i]) == "
+        f"(1 if ({BA}[0] <= x_prime['a_prime'][i] and "
+        f"x_prime['a_prime'][i] <= {BA}[1] and "
+        f"{BB}[0] <= x_prime['b_prime'][i] and "
+        f"x_prime['b_prime'][i] <= {BB}[1]) else 0))",
+    ],
+)
